@@ -31,8 +31,8 @@ Close(prog, S) == LET T == S \cup {prog[i].b : i \in {j \in Wires(prog) : prog[j
 Rep(prog, p) == SetMin(Close(prog, {p}))          \* the class of a point, named by its smallest point
 
 \* ---- values by item index (so that a value taken from another symbol shows)
-Pw(i) == <<2, 3, 5, 7, 11, 13, 17, 19>>[i]
-UnitOf(i) == << <<Q(3,5), Q(4,5)>>, CJ1, <<Q(5,13), Q(-12,13)>>, C1, <<Q(-4,5), Q(3,5)>>, CNeg(CJ1), <<Q(8,17), Q(15,17)>>, CNeg(C1) >>[i]
+Pw(i) == <<2, 3, 4, 5, 6, 7, 8, 9>>[i]          \* small (exact 32-bit arithmetic), distinct per item
+UnitOf(i) == << <<Q(3,5), Q(4,5)>>, CJ1, <<Q(4,5), Q(-3,5)>>, C1, <<Q(-4,5), Q(3,5)>>, CNeg(CJ1), <<Q(-3,5), Q(-4,5)>>, CNeg(C1) >>[i]
 \* the component a symbol denotes (kind and value record of module Circuit); nodes are added by Netlist
 SymComp(k, i) ==
   CASE k = "R" -> [kind |-> "resistor", v |-> [R |-> RI(Pw(i))]]
